@@ -8,91 +8,147 @@ Goal: prove, function by function, the frame condition
 for the read-only entry points of the library.  The analysis is modular: every
 function gets a *summary* (its contract); a caller is checked against the
 summaries of its callees, never against their bodies; summaries are the least
-fixpoint over the call graph.
+fixpoint over the call graph.  Everything is recomputed from the AST of
+<src_root> on every run ($PYVC_REPO/src/odfdo if PYVC_REPO is set, else
+/repo/src/odfdo); odfdo itself is never imported.
 
 Summary of a function (per specialisation, see below)
     effects   set of *origins* whose XML tree the function may write to:
-                self            tree reachable from the receiver
-                arg:<p>         tree reachable from parameter <p>
-                global          tree reachable from module-level state (MD_GLOBAL)
-                outer:<o>       (nested functions) origin <o> of the enclosing function
-                fresh           freshly built tree (deepcopy, fromstring, clone,
-                                Element.from_tag("<tag>"), constructors): allowed
+                self             tree reachable from the receiver
+                arg:<p>          tree reachable from parameter <p>
+                global           tree reachable from module-level state (MD_GLOBAL)
+                outer:<o>        (nested functions) origin <o> of the enclosing function
+                fresh            freshly built tree (deepcopy, fromstring, clone,
+                                 Element.from_tag("<tag>"), constructors): allowed
                 unknown-call:<n> a call that could not be resolved
-    ret       abstract value of the result (origins, type tags, item tags, constness)
+              every effect carries a witness (base-fact write, or call + callee
+              effect) from which the call chain of a verdict is rebuilt
+    ret       abstract value of the result: origins, type tags, item type tags,
+              constness (None / True / False / not-None / string constant)
     captures  o -> {o'}: after the call, Python objects of origin o may hold
-              references into o' (e.g. stored in a field); used to keep "fresh"
-              honest across calls
-    gwrites   names of module-level Python state written (MD_GLOBAL ...), kept
-              separately: this is not an XML effect.  `gw_unrestored` lists the
-              ones not restored by a try/finally.
+              references into o' (stored in a field, appended to a list ...);
+              keeps "fresh" honest across calls
+    gwrites   names of module-level Python state written (MD_GLOBAL,
+              _class_registry), kept apart: this is not an XML effect;
+              `Analysis.global_writes[f]["restored_in_finally"]` tells whether all
+              the writes sit in a try whose finally writes the same global (today:
+              never, MDDocument._markdown_export resets MD_GLOBAL without finally)
 
 Base facts (writes to the lxml tree)
     * assignment / augmented assignment / delete of ANY attribute of an lxml node
       (.text .tail .tag ...), node[...] = / del node[...]
     * node.set/append/insert/remove/clear/extend/addnext/addprevious/replace/
       __setitem__/__delitem__ ; for the inserting ones the inserted nodes are
-      written too (lxml *moves* nodes out of their former tree)
+      written too (lxml *moves* a node out of its former tree)
     * del node.attrib[...], node.attrib[...] = , node.attrib.pop/clear/update/
       setdefault/popitem
     * etree.strip_tags/strip_elements/strip_attributes/cleanup_namespaces/indent/
       SubElement
     * the same operations on a receiver of unknown type that may reach a tree
     `tostring`, `xpath`, `XPath.__call__`, `get`, `getparent`, iteration ... are
-    reads.  (`analyze(strict_tostring=True)` / `--strict-tostring` treats
-    `tostring` as a potential writer; used only by the self test.)
+    reads; a method of an lxml node outside the known read/write lists is an
+    unknown-call.  (`analyze(strict_tostring=True)` / `--strict-tostring` treats
+    `tostring` as a potential writer; only used by the self test.)
+    The lxml node of an Element is `self._Element__element` (`self.__element`
+    inside class Element, name mangling is applied); values derived from it
+    (getparent, iteration, xpath results, smart strings) keep its origin.
 
-Abstract interpretation
-    Intra-procedural, flow-SENSITIVE on local variables (strong updates, joins at
-    branches, loop fixpoints; needed for `cell = cell.clone; cell.repeated = None`
-    in Row.traverse), path-insensitive except for constant propagation of
-    None/True/False: a summary is keyed by (function, frozenset of
-    (parameter, constant)) for the parameters the callee tests or forwards, so
-    `Element.replace(pattern)` (new=None) is specialised pure while
-    `replace(pattern, new)` is not.  Constructors of Element subclasses are
-    analysed under the flag @wrap (called with tag_or_elem=: `self._do_init` is
-    False) or @new; nothing is assumed about the `_do_init` protocol, the
-    `__init__` bodies are analysed under the flag.
+Abstract interpretation of one function
+    Flow-SENSITIVE on local variables (strong updates, joins at branches, loop
+    fixpoints, dead code after return/raise; needed for
+    `cell = cell.clone; cell.repeated = None` in Row.traverse), with constant
+    propagation of None/True/False and isinstance / `is None` refinement.  A
+    summary is keyed by (function, frozenset of (parameter, constant)) for the
+    parameters the callee tests or forwards, so `Element.replace(pattern)`
+    (new=None) is specialised pure while `replace(pattern, new)` is not; string
+    constants are propagated only into getattr/setattr names.  Constructors of
+    Element subclasses are analysed under the flag @wrap (called with
+    tag_or_elem=: `self._do_init` is False, the receiver IS the live node) or @new:
+    the `_do_init` protocol is not assumed, the `__init__` bodies are analysed.
+    Variables copied syntactically (`b = a`, `b = a.x`) form alias groups for the
+    capture/taint bookkeeping.
 
 Call resolution
     self.m()      class hierarchy analysis: for the static receiver class C, m is
                   looked up through the MRO of C and of every subclass of C in the
-                  code base (so a mixin method sees the methods of its users)
+                  code base (a mixin method sees the methods of its users)
     obj.m()       typed receiver: as above / builtin / lxml; receiver of unknown
                   type: every method named m in ANY class of the code base (more
                   conservative than "Element subclasses only") plus the lxml base
                   fact if m is an lxml writer; a name that is neither in the code
                   base nor in the builtin/stdlib/lxml vocabulary: unknown-call
-    obj.p         property defined in the code base (incl. the PropDef generated
-                  ones): call of the getter; obj.p = v: call of the setter
-    str(x), f"{x}", repr(x), ==, <, len ...: the dunder methods of the code base
-    f(x) where f is a variable: function references are tracked as type tags,
-                  through returns, parameters (union over the call sites of the
-                  code base) and fields.
+    obj.p         property of the code base (incl. the PropDef generated ones):
+                  call of the getter; obj.p = v: call of the setter
+    str(x), f"{x}", repr(x), ==, <, len, iteration: the dunder methods of the code
+                  base; Element.clone.fget(self); super().m(); cls(...) /
+                  _class_registry.get(...)(...) = constructors of all subclasses
+    f(x), f a variable: function / class references are type tags tracked through
+                  returns, parameters (union over the call sites), fields, dicts.
     Python-side state (self._indexes, _tmap/_cmap/_rmap, lazily parsed parts in
-    dicts, the context dict of get_formatted_text) is not an XML mutation.
+    dicts, the context dict of get_formatted_text, MD_GLOBAL) is not an XML
+    mutation.
+
+Whole program
+    Roots (arbitrary arguments): every public or dunder method / property of every
+    class, the functions exported by odfdo/__init__.py, the module top levels.
+    Private helpers are analysed under the specialisations their callers use.
+    Three global tables grow during the fixpoint: field types (by attribute name),
+    parameter types (callables and container items from the call sites; all types
+    for private functions), keys of module-level dicts.  Because a summary computed
+    against incomplete tables may contain stale effects, all summaries are
+    recomputed from bottom in phases until a whole phase leaves the tables
+    unchanged: first with optimistic defaults (empty container = nothing inside),
+    then with pessimistic ones (empty container / never-called parameter =
+    anything).  The result is the least fixpoint w.r.t. the final tables.
 
 Assumptions (trusted base)
     * closed world: the code under <src_root>, no monkey patching, no subclasses
-      or callables supplied from outside; dict/list/callable arguments contain
-      the kinds of values the code base itself puts in them
-    * parameter annotations naming primitives / containers / code-base classes /
-      XPath / _Element are upper bounds of the run-time types
+      or callables supplied from outside; dict/list/callable ARGUMENTS contain the
+      kinds of values the code base itself passes at its call sites
+    * parameter and return annotations naming primitives, containers of
+      primitives, code-base classes, XPath, _Element are upper bounds of the
+      run-time types (never used to drop an origin, except int/bool/None/Decimal/
+      datetime parameters, from which no tree is reachable)
     * the lxml base-fact list above is complete; stdlib/builtin functions do not
-      call back into odfdo except through the modelled protocols
+      call back into odfdo except through the modelled protocols (str, repr,
+      format, comparison, iteration, key=/callback arguments)
+    * setattr(obj, name, v) with name drawn from an `x.__dict__` is a field-wise
+      copy; plain-data fields (ints, strings, lists of ints) reach no tree
+    * aliasing of local containers is tracked only for syntactic copies
     * exceptions are not tracked (a write before a raise is still a write)
     * container *bytes* parts (Container.set_part) are outside this analysis.
 
-Self-test mutants (tools/effects_selftest.py, via tools/mutrun.py)
+Results on the unchanged tree (measured by the run, see `report()`)
+    307 entry points: 60 pure, 247 may-mutate, 0 unknown.  Two genuine defects
+    poison most of them, both confirmed by native replay:
+      F1  MDTable._md_format calls self.optimize_width() on the LIVE table.
+          Reached by Document.to_markdown and, because ListItem.__str__ is
+          implemented with the Markdown collector, by str()/inner_text/search/
+          match/get_*(content=...) of ANY element whose subtree may contain
+          list-item > p > frame > text-box > table.
+      F2  MetaAutoReload.__init__ / MetaTemplate.__init__ assign self.actuate /
+          .show / .type OUTSIDE `if self._do_init:`: wrapping an existing node
+          (Element.from_tag, hence every get_element*) rewrites its attributes.
+    `analyze()` therefore also runs a what-if analysis (`.modulo`) in which these
+    6 statements (KNOWN_FINDINGS) are assumed removed: 303 pure, 4 may-mutate
+    (88 of the 243 conditional ones depend only on F2).  The remaining four are
+    genuine too: Element.get_variable_decls / get_user_field_decls create the
+    container they look for, Table.get_cell(clone=False, keep_repeated=False)
+    clears `repeated` on the live cell, XmlPart.serialize(pretty=True) indents the
+    live tree (the last two are pure with default arguments).
+    Row.minimized_width only rebuilds Python caches: XML-pure.
+
+Self-test mutants (tools/effects_selftest.py, through tools/mutrun.py; verdicts
+of the what-if run)
     (a) table.py `_get_formatted_text_rst`: `table = self.clone` -> `table = self`
         FLIPS  Table.get_formatted_text  pure -> may-mutate (rstrip on the live table)
     (b) element.py `serialize`: `native = deepcopy(self.__element)` ->
         `native = self.__element`
-        DOES NOT FLIP by default: serialize only calls `tostring(native, ...)`,
-        it neither strips nor cleans the tree, so the mutant is behaviourally
-        still read-only; it FLIPS under --strict-tostring.
-    (c) element.py `replace`: `count += len(cpattern.findall(str(text)))` gets a
-        write `text.parent.text = ""` in the `new is None` branch
+        DOES NOT FLIP: serialize only calls `tostring(native, ...)`, it neither
+        strips nor cleans the tree, the mutant is still read-only; it FLIPS under
+        --strict-tostring.
+    (c) element.py `replace`: a write `text.parent.text = ""` added to the
+        `new is None` branch
         FLIPS  Element.replace[new=None]  pure -> may-mutate.
 """
 
@@ -1153,6 +1209,10 @@ class FA:
 
     def s_FunctionDef(self, st, env):
         nf = self.fi.nested.get(st.name)
+        if self.fi.kind == "module":
+            r = self.P.resolve(self.mod, st.name)
+            self.bind(env, st.name, self.resolved_av(r) if r and r[0] == "func" else UNK)
+            return env
         if nf is not None and nf.node is st:
             self.bind(env, st.name, AV(t={"func:" + nf.q}, c="NN"))
         else:
@@ -1162,7 +1222,8 @@ class FA:
     s_AsyncFunctionDef = s_FunctionDef
 
     def s_ClassDef(self, st, env):
-        self.bind(env, st.name, UNK)
+        r = self.P.resolve(self.mod, st.name) if self.fi.kind == "module" else None
+        self.bind(env, st.name, self.resolved_av(r) if r and r[0] == "class" else UNK)
         return env
 
     def s_Return(self, st, env):
@@ -3107,7 +3168,11 @@ class Analysis:
     def verdict(self, entry):
         key = self.entry_keys.get(entry)
         if key is None:
-            cands = [e for e in self.entry_points if e.endswith(entry) or entry in e]
+            cands = [e for e in self.entry_points if e.endswith(":" + entry) or e.endswith("." + entry)]
+            if not cands:
+                cands = [e for e in self.entry_points if entry in e]
+            if len(cands) != 1 and (entry, EMPTY) in self.sums:
+                return self.verdict_of_key((entry, EMPTY))
             if len(cands) != 1:
                 raise KeyError(f"{entry!r}: {len(cands)} matching entry points")
             key = self.entry_keys[cands[0]]
